@@ -4,7 +4,9 @@
    tied to the code by the correspondence check; the sector normals, centre
    and group elements are taken from the implementation at run time. *)
 From Coq Require Import Reals ZArith List Bool Lra.
-From Verif Require Import Scalar RInst Quat QuatAlg SectorModel SectorProofs.
+From Coq Require Import QArith String.
+From Verif Require Import Scalar RInst KField KtoR Quat QuatAlg GroupK Groups SymDotK SectorModel SectorProofs
+  CoverCheck CoverSound SectorCertsAll SectorDomain.
 Import ListNotations.
 Local Open Scope R_scope.
 
@@ -42,17 +44,73 @@ Theorem C07_idempotent_partial : forall tol (S : list (rot (T:=R))) N center v,
 Proof. exact project_idempotent_if_lands_inside. Qed.
 Print Assumptions C07_idempotent_partial.
 
-(* PARTIAL.  FULL clauses not carried by a theorem: "the result lies inside the
-   closed sector", "equivalents project to the same direction off the
-   boundary", "every direction has an equivalent inside and directions in
-   general position exactly one".  With the sector centres the code uses
-   (binary64 means of a 1-degree mesh, or three-decimal MTEX constants) the
-   Voronoi cell of the centre is only within ~1e-16..1e-3 of the sector, so
-   these clauses are statements about the 1e-9 tolerance, not exact cone
-   identities; they are decided by the brute-force oracle on stratified
-   directions (on / within 1e-9 of every bounding plane, vertices, rotation
-   axes, both hemispheres, non-unit lengths) for all 38 groups and their Laue
-   groups, and by the Coq-evaluated correspondence of the projection itself. *)
+(* ---------------------------------------------------------------------------------------------
+   THE SECTOR IS A FUNDAMENTAL DOMAIN.  Subjects: the 38 named point groups and the 38 groups
+   returned by their .laue (76 subjects; operations from Gen/Groups.v, sector normals from
+   Gen/SectorCerts*.v -- both regenerated from /repo on every run and recognised exactly in
+   K = Q(sqrt2, sqrt3)).  70 subjects carry a certificate; the other 6 are refuted below. *)
+
+(* no gaps: EVERY real direction x (any length, either hemisphere, on or off any boundary) has a
+   symmetry-equivalent r * x in the closed sector *)
+Theorem C07_sector_has_no_gaps : forall sc, In sc (List.concat all_sector_certs) ->
+  forall x : vec3 (T:=R), exists r, In r (sc_ops sc) /\
+    forall n, In n (sc_N sc) -> 0 <= vdot ROps (vtoR n) (ract ROps (rtoR r) x).
+Proof. exact sector_covers. Qed.
+Print Assumptions C07_sector_has_no_gaps.
+
+(* ... hence passes the code's test  n . v > -tol  for every positive tolerance *)
+Theorem C07_sector_has_no_gaps_tol : forall sc, In sc (List.concat all_sector_certs) ->
+  forall (tol : R) (x : vec3 (T:=R)), 0 < tol ->
+  exists r, In r (sc_ops sc) /\ in_sector ROps tol (map vtoR (sc_N sc)) (ract ROps (rtoR r) x) = true.
+Proof.
+  intros sc H tol x Ht. destruct (sector_covers sc H x) as [r [Hr Hc]].
+  exists r. split; [exact Hr|]. apply in_cone_in_sector; assumption.
+Qed.
+Print Assumptions C07_sector_has_no_gaps_tol.
+
+(* no overlaps: a direction strictly inside the sector is strictly inside under NO other operation
+   (the first operation of every subject is the identity) *)
+Theorem C07_sector_has_no_overlaps : forall sc, In sc (List.concat all_sector_certs) ->
+  forall x : vec3 (T:=R), (forall n, In n (sc_N sc) -> 0 < vdot ROps (vtoR n) x) ->
+  forall r, In r (tl (sc_ops sc)) ->
+    ~ (forall n, In n (sc_N sc) -> 0 < vdot ROps (vtoR n) (ract ROps (rtoR r) x)).
+Proof. exact sector_no_overlap. Qed.
+Print Assumptions C07_sector_has_no_overlaps.
+
+Theorem C07_sector_first_operation_is_identity : forall sc, In sc (List.concat all_sector_certs) ->
+  exists r rest, sc_ops sc = r :: rest /\ rtoR r = (qone ROps, false).
+Proof. exact sector_identity_first. Qed.
+Print Assumptions C07_sector_first_operation_is_identity.
+
+(* every one of the 76 subjects is either certified (70) or refuted (6) -- none is skipped *)
+Theorem C07_all_sectors_decided :
+  subjects_covered (List.concat all_sector_certs) sector_defects = true /\
+  List.length (List.concat all_sector_certs) = 70%nat /\ List.length groups = 38%nat.
+Proof. split; [exact sector_subjects_all_decided|split; [exact sector_cert_count|exact sector_group_count]]. Qed.
+Print Assumptions C07_all_sectors_decided.
+
+(* REFUTED for six subjects (known findings m11, 1m1, -6m2, laue(211), laue(m11), laue(312)): an exact
+   rational direction NONE of whose equivalents lies in the closed sector *)
+Theorem C07_sector_is_domain_refuted : forall sd, In sd sector_defects ->
+  forall r, In r (subject_ops (sd_name sd) (sd_laue sd)) ->
+    ~ (forall n, In n (sd_N sd) -> 0 <= vdot ROps (vtoR n) (ract ROps (rtoR r) (vtoR (kv_ofQ (sd_dir sd))))).
+Proof. intros sd H. exact (proj2 (sector_defects_are_gaps sd H)). Qed.
+Print Assumptions C07_sector_is_domain_refuted.
+
+(* ... and these six are exactly the listed ones (group name, Laue?) -- a seventh breaks this proof *)
+Theorem C07_defective_sectors_are_the_known_ones :
+  map (fun sd => (sd_name sd, sd_laue sd)) sector_defects = known_defective_sectors.
+Proof. exact sector_defects_are_the_known_ones. Qed.
+Print Assumptions C07_defective_sectors_are_the_known_ones.
+
+(* PARTIAL.  Clauses about the PROJECTION not carried by a theorem: "the projected direction lies inside
+   the closed sector" and "equivalents project to the same direction off the boundary".  The projection
+   chooses the operation by the distance to a sector centre; with the centres the code uses (binary64
+   means of a 1-degree mesh, or three-decimal MTEX constants) the Voronoi cell of the centre is only
+   within ~1e-16..1e-3 of the sector, so these clauses are statements about the 1e-9 tolerance, not exact
+   cone identities; they are decided by the brute-force oracle on stratified directions (on / within 1e-9
+   of every bounding plane, vertices, rotation axes, both hemispheres, non-unit lengths) for all 38 groups
+   and their Laue groups, and by the Coq-evaluated correspondence of the projection itself. *)
 
 Example C07_nonvacuous :
   in_sector ROps (1 / 1000000000) [(0, 0, 1)] (0, 0, 1) = true.
